@@ -26,7 +26,12 @@ g = (pg, mg): a generic operation of the document (pg the key at the generic pos
     outer invariant(seen)            reg0 subseteq reg(schemas)  and  if ig < |seen| then Done else NotYet
     inner invariant(seen_m) at io    reg0 subseteq reg(schemas)  and  if ig < io or (ig = io and jm < |seen_m|) then Done else NotYet
     warnings loop                    the ghost state is unchanged
+    M[tag], cnt    module names (PythonIdentifier of the endpoint's name) of the endpoints filed under a tag; cnt = number of
+                    endpoints with the generic module name m* filed under the generic tag t*;  invariant: cnt <= 1 and
+                    (cnt >= 1 => m* in M[t*]).  `any(PythonIdentifier(other.name, ..) == m for .. in collection.endpoints)` is read
+                    through one existential witness: true exactly when m in M[tag]
 Clauses on return (endpoints_by_tag', schemas', parameters'):
+    one-endpoint-per-module     cnt <= 1 for every tag t* and module name m*
     every-operation-accounted   the returned mapping is the one the collections were put in, Tg is a key, and g ended as an
                                 Endpoint or as a fatal ParseError of the collection of its FIRST tag -- exactly one of the two
     registrations-survive       if g ended as an Endpoint, the returned Schemas still holds what g registered
@@ -53,6 +58,17 @@ class _ListProxy(SOpaque):
         super().__init__(f"collection[{tag}].{which}", cls=list)
         self.W, self.tag, self.which = W, tag, which
 
+    def iterate_hook(self, I):
+        """`any(<test on other.name> for other in collection.endpoints)`: ONE existential witness whose raw name, once turned
+        into a module name by PythonIdentifier, compares equal to m exactly when some endpoint of the collection has the
+        module name m (ghost set M[tag]); any other use of the witness is out of reach"""
+        if self.which != "endpoints":
+            raise Unsupported("iteration over a collection's parse_errors")
+        w = SOpaque(f"some endpoint of collection[{self.tag}]", cls=object)
+        w.attrs["name"] = _WitnessRawName(self.W, self.tag)
+        w.getattr = lambda I2, n: (_ for _ in ()).throw(Unsupported(f"attribute {n} of the existential witness of a list"))
+        return [w]
+
     def getattr(self, I, name):
         W = self.W
         if name != "append":
@@ -61,18 +77,44 @@ class _ListProxy(SOpaque):
         def append(I2, a, k):
             x = a[0]
             op, kind = getattr(x, "ghost_op", None), getattr(x, "ghost_kind", None)
+            if op is None and self.which == "parse_errors" and isinstance(x, SObj) and x.cls.__name__ == "ParseError" \
+                    and W.current_op is not None:
+                # a diagnostic the function made itself while handling the current operation (it is named by the header the
+                # function writes: fixed-shape contract); fatal: the function `continue`s after filing it
+                op, kind = W.current_op, "fatal"
             if op is None:
                 raise Unsupported("appending an object of unknown origin to a collection")
             if self.which == "endpoints":
                 if kind != "endpoint":
                     raise Unsupported("appending something else than an Endpoint to endpoints")
                 W.E = z3.Store(W.E, self.tag, z3.SetAdd(z3.Select(W.E, self.tag), op))
+                m = W.module_of(I2, x)
+                # ghost: how many endpoints with the generic module name were filed under the generic tag
+                W.cnt = W.cnt + z3.If(z3.And(self.tag == W.tstar, m == W.mstar), 1, 0)
+                W.M = z3.Store(W.M, self.tag, z3.SetAdd(z3.Select(W.M, self.tag), m))
             else:
                 if kind == "fatal":
                     W.P = z3.Store(W.P, self.tag, z3.SetAdd(z3.Select(W.P, self.tag), op))
                 elif kind != "warning":
                     raise Unsupported("appending something else than a ParseError to parse_errors")
         return SFunc("model", append)
+
+
+class _WitnessRawName(SOpaque):
+    """the raw `name` of the existential witness of a collection's endpoints; only PythonIdentifier may look at it"""
+
+    def __init__(self, W, tag):
+        super().__init__("name-of-some-endpoint", cls=str)
+        self.W, self.tag = W, tag
+
+
+class _WitnessModule(SOpaque):
+    def __init__(self, W, tag):
+        super().__init__("module-name-of-some-endpoint", cls=str)
+        self.W, self.tag = W, tag
+
+    def eq_any(self, I, other):
+        return z3.IsMember(I.to_str_term(other), z3.Select(self.W.M, self.tag))
 
 
 class _CollRef(SOpaque):
@@ -132,6 +174,24 @@ def from_data_inductive_contract():
         W.E = z3.K(S, z3.EmptySet(W.Op))
         W.P = z3.K(S, z3.EmptySet(W.Op))
         W.dom = z3.EmptySet(S)
+        W.M = z3.K(S, z3.EmptySet(S))              # module names of the endpoints filed under a tag
+        W.cnt = z3.IntVal(0)
+        W.tstar, W.mstar = z3.Const("generic_tag", S), z3.Const("generic_module_name", S)
+        W.current_op = None
+        name_of = z3.Function("operation_name", W.Op, S)
+        I.lib = dict(I.lib)
+        _pi = I.lib[utils.PythonIdentifier]
+
+        def pyident(I2, a, k):
+            v = a[0] if a else k["value"]
+            if isinstance(v, _WitnessRawName):
+                return _WitnessModule(v.W, v.tag)
+            return _pi(I2, a, k)
+        I.lib[utils.PythonIdentifier] = pyident
+
+        def module_of(I2, ep):
+            return I2.to_str_term(_pi(I2, [SStr(name_of(ep.ghost_op)), "field_"], {}))
+        W.module_of = module_of
         keyF = z3.Function("path_key", Z.JV, S)
         has_op = z3.Function("has_operation", Z.JV, S, B)
         tags_none = z3.Function("tags_is_none", Z.JV, S, B)
@@ -192,6 +252,7 @@ def from_data_inductive_contract():
         def mk_endpoint(op):
             ep = SOpaque("endpoint", cls=object)
             ep.ghost_op, ep.ghost_kind = op, "endpoint"
+            ep.attrs["name"] = SStr(name_of(op))
             warnings = z3.Function("warnings_of", W.Op, z3.SeqSort(Z.JV))
             ep.attrs["errors"] = SSeq(warnings(op), None, [lambda v: mk_error(op, "warning")])
             return ep
@@ -207,6 +268,7 @@ def from_data_inductive_contract():
             op = mkop(I2.to_str_term(k["path"]), I2.to_str_term(k["method"]))
             if not isinstance(k["schemas"], _Schemas):
                 raise Unsupported("Endpoint.from_data called with something else than the threaded schemas")
+            W.current_op = op
             if I2.branch_free():
                 return STuple([mk_endpoint(op), grown(I2, k["schemas"], op), SOpaque("parameters", cls=object)])
             return STuple([mk_error(op, "fatal"), grown(I2, k["schemas"]), SOpaque("parameters", cls=object)])
@@ -256,7 +318,8 @@ def from_data_inductive_contract():
 
         def kept(loc):
             sch = loc.get("schemas")
-            return z3.IsSubset(W.schemas0.reg, sch.reg) if isinstance(sch, _Schemas) else z3.BoolVal(False)
+            once = z3.And(W.cnt >= 0, W.cnt <= 1, z3.Implies(W.cnt >= 1, z3.IsMember(W.mstar, z3.Select(W.M, W.tstar))))
+            return z3.And(once, z3.IsSubset(W.schemas0.reg, sch.reg)) if isinstance(sch, _Schemas) else z3.BoolVal(False)
 
         def outer_inv(I2, loc, seen):
             n = z3.Length(seen)
@@ -274,13 +337,15 @@ def from_data_inductive_contract():
 
         def warnings_inv(I2, loc, seen):
             if z3.is_app(seen) and seen.decl().kind() == z3.Z3_OP_SEQ_EMPTY:
-                snap["E"], snap["P"], snap["dom"] = W.E, W.P, W.dom
-            return z3.And(W.E == snap["E"], W.P == snap["P"], W.dom == snap["dom"])
+                snap["E"], snap["P"], snap["dom"], snap["M"], snap["cnt"] = W.E, W.P, W.dom, W.M, W.cnt
+            return z3.And(W.E == snap["E"], W.P == snap["P"], W.dom == snap["dom"], W.M == snap["M"], W.cnt == snap["cnt"])
 
         def havoc_world(I2):
             W.E = I2.fresh("E", z3.ArraySort(S, OpSet))
             W.P = I2.fresh("P", z3.ArraySort(S, OpSet))
             W.dom = I2.fresh("dom", z3.SetSort(S))
+            W.M = I2.fresh("M", z3.ArraySort(S, z3.SetSort(S)))
+            W.cnt = I2.fresh("cnt", z3.IntSort())
             return None
 
         def havoc_schemas(I2):
@@ -316,7 +381,15 @@ def from_data_inductive_contract():
         return z3.And(z3.Implies(z3.IsMember(g, z3.Select(W.E, Tg)), z3.IsMember(g, v.items[1].reg)),
                       z3.IsSubset(W.schemas0.reg, v.items[1].reg))
 
+    def one_module(ctx):
+        W = ctx.inputs["W"]
+        return W.cnt <= 1
+
     clauses = [
+        Clause("one-endpoint-per-module", one_module,
+               statement="for every tag and every module name, at most one endpoint whose PythonIdentifier(name) is that module "
+                         "name is filed under that tag: two operations of one tag never share api/<tag>/<module>.py (the later one "
+                         "is reported instead)", props=["C09", "C07", "C01"]),
         Clause("every-operation-accounted", accounted,
                statement="every operation of every path item (generic g) ends, in the collection of its first tag (or default), as "
                          "an Endpoint or as a fatal ParseError -- exactly one of the two; the mapping returned is the one holding "
